@@ -86,7 +86,20 @@ func runEngineG3(p *Prog, o *obls) {
 				return
 			}
 			// a map held in a struct field (long-lived index), not a local
-			u, ok := p.origin(lk.X).(*ssa.UnOp)
+			mapV := p.origin(lk.X)
+			if par, isPar := mapV.(*ssa.Parameter); isPar {
+				// the lookup sits in a helper that receives the index map (onIndexedFeedback(h, h.twccToCounter, …)):
+				// it is a lookup on the fields its callers pass
+				if args, _, closed := p.argsForParam(par); closed && len(args) > 0 {
+					mapV = p.origin(args[0])
+					for _, a := range args[1:] {
+						if _, isLoad := p.origin(a).(*ssa.UnOp); !isLoad {
+							mapV = nil
+						}
+					}
+				}
+			}
+			u, ok := mapV.(*ssa.UnOp)
 			if !ok {
 				return
 			}
